@@ -127,7 +127,62 @@ fn err_name(e: virtio_drivers::Error) -> String {
     format!("{:?}", e)
 }
 
+/// Blank heap addresses (two runs of one scenario need not get the same ones).
+fn normalise(lines: &[String]) -> Vec<String> {
+    let mut ids: BTreeMap<String, usize> = BTreeMap::new();
+    fn walk(v: &mut Value, ids: &mut BTreeMap<String, usize>) {
+        match v {
+            Value::Object(m) => {
+                for (k, x) in m.iter_mut() {
+                    if k == "va" {
+                        // heap addresses are reused in ways that depend on the harness's own
+                        // allocations: not compared
+                        *x = json!(0);
+                    } else {
+                        walk(x, ids);
+                    }
+                }
+            }
+            Value::Array(a) => a.iter_mut().for_each(|x| walk(x, ids)),
+            _ => {}
+        }
+    }
+    lines
+        .iter()
+        .filter(|l| !l.contains("\"e\":\"DevScribble\""))
+        .map(|l| {
+            let mut v: Value = serde_json::from_str(l).unwrap();
+            walk(&mut v, &mut ids);
+            v.to_string()
+        })
+        .collect()
+}
+
+/// C07 at the queue API.  The scenario runs twice against the same misbehaving device (bogus
+/// ids / lengths / index jumps, duplicates, dropped completions): once with the device only
+/// *pretending* to overwrite the descriptor table and available ring, once doing it.  The
+/// second recording is what TLC validates; it must equal the first one event for event.
 pub fn run(p: &VqParams, sc: &str) -> VqOutcome {
+    if p.mode != "adversary" {
+        return run_inner(p, sc);
+    }
+    ADV_MODE.with(|a| a.set(Some((p.seed ^ 0xadd, 0.3, 1))));
+    let a = run_inner(p, sc);
+    ADV_MODE.with(|a| a.set(Some((p.seed ^ 0xadd, 0.3, 2))));
+    let mut b = run_inner(p, sc);
+    ADV_MODE.with(|a| a.set(None));
+    let (na, nb) = (normalise(&a.lines), normalise(&b.lines));
+    let scribbles = b.lines.iter().filter(|l| l.contains("\"e\":\"DevScribble\"")).count();
+    b.summary["scribbles"] = json!(scribbles);
+    if na != nb {
+        let k = na.iter().zip(nb.iter()).position(|(x, y)| x != y).unwrap_or(std::cmp::min(na.len(), nb.len()));
+        b.lines.push(json!({"e":"DiffMismatch","at":k,"clean":na.get(k),"scribbled":nb.get(k)}).to_string());
+        b.summary["diff"] = json!("MISMATCH");
+    }
+    b
+}
+
+fn run_inner(p: &VqParams, sc: &str) -> VqOutcome {
     reset_world();
     with_world(|w| w.external_calls = true);
     let q: u16 = 0;
@@ -198,7 +253,7 @@ pub fn run(p: &VqParams, sc: &str) -> VqOutcome {
                     w.cur_q = None;
                     w.cur_bufs.clear();
                     match &r {
-                        Ok(len) => w.qev(q, json!({"e":"PopRet","ok":true,"len":len,"outdg":post})),
+                        Ok(len) => w.qev(q, json!({"e":"PopRet","ok":true,"len":crate::core::hex(*len as u64),"outdg":post})),
                         Err(e) => w.qev(q, json!({"e":"PopRet","ok":false,"err":err_name(*e)})),
                     }
                 });
@@ -339,8 +394,17 @@ pub fn run(p: &VqParams, sc: &str) -> VqOutcome {
                 sched.borrow_mut().step();
             }
             let peek = queue.peek_used();
+            let adversary = p.mode == "adversary";
+            if adversary && held.is_empty() {
+                continue;
+            }
             let tok: u16 = match peek {
                 Some(t) if held.contains_key(&t) && (wrap || rng.gen_bool(0.85)) => t,
+                _ if adversary => {
+                    // the caller keeps its side of the contract: only tokens it holds
+                    let ks: Vec<u16> = held.keys().copied().collect();
+                    ks[rng.gen_range(0..ks.len())]
+                }
                 _ => {
                     // a token that is certainly not the next completion
                     let cands: Vec<u16> = held.keys().copied().filter(|t| Some(*t) != peek).collect();
@@ -379,7 +443,7 @@ pub fn run(p: &VqParams, sc: &str) -> VqOutcome {
                 w.cur_q = None;
                 w.cur_bufs.clear();
                 match &r {
-                    Ok(Ok(len)) => w.qev(q, json!({"e":"PopRet","ok":true,"len":len,"outdg":post})),
+                    Ok(Ok(len)) => w.qev(q, json!({"e":"PopRet","ok":true,"len":crate::core::hex(*len as u64),"outdg":post})),
                     Ok(Err(e)) => w.qev(q, json!({"e":"PopRet","ok":false,"err":err_name(*e)})),
                     Err(pn) => w.qev(q, json!({"e":"Panic","call":"pop_used","msg":panic_msg(pn)})),
                 }
@@ -446,9 +510,12 @@ pub fn run(p: &VqParams, sc: &str) -> VqOutcome {
     drop(transport);
     let lines = with_world(|w| {
         let mut v = Vec::with_capacity(w.trace.len() + 1);
-        v.push(json!({"e":"Reset","sc":sc,"n":p.n,"ind":p.indirect,"ev":p.event_idx,"ap":p.ap}).to_string());
+        v.push(json!({"e":"Reset","sc":sc,"n":p.n,"ind":p.indirect,"ev":p.event_idx,"ap":p.ap,"adv":w.adv.is_some()}).to_string());
         v.extend(w.q_lines(q));
         w.trace.clear();
+        if let Some(a) = &w.adv {
+            stats["adversary"] = json!(a.counts);
+        }
         v
     });
     stats["completed"] = json!(sched.borrow().completed);
